@@ -323,7 +323,13 @@ class PreloadsSim(purity.PuritySim):
                 # one common scale for all leaves of an output (a dict of per-object images): the error of a solve is relative to the
                 # size of the whole solution, not of its smallest component.  Absolute floors: inputs are of order one, so values
                 # below 1e-6 (exact-type outputs) / 1e-3 (solution-dependent outputs) are rounding noise.
-                all_scale = max([float(np.max(np.abs(y))) for y in b if y.size] + [0.0])
+                # NaN-aware: a NaN (e.g. an adaptive regularization fed negative adapt data) must sit at the same places on both
+                # sides; magnitudes are compared over the finite entries
+                def _finite_max(y):
+                    f = np.abs(y[np.isfinite(y)])
+                    return float(f.max()) if f.size else 0.0
+
+                all_scale = max([_finite_max(y) for y in b if y.size] + [0.0])
                 floor = 1e-3 if kind_tol == "cond" else 1e-6
                 scale = max(all_scale, floor)
                 for x, y in zip(a, b):
@@ -332,7 +338,14 @@ class PreloadsSim(purity.PuritySim):
                         break
                     if x.size == 0:
                         continue
-                    err = float(np.max(np.abs(x - y)))
+                    if not np.array_equal(np.isfinite(x), np.isfinite(y)):
+                        bad = "non-finite entries at different places"
+                        break
+                    fin = np.isfinite(y)
+                    if x.ndim == 0:
+                        err = float(abs(x - y)) if bool(fin) else 0.0
+                    else:
+                        err = float(np.max(np.abs(x[fin] - y[fin]))) if fin.any() else 0.0
                     if kind_tol == "logdet":
                         n = max(1, int(self.world.env[target].total_params) if hasattr(self.world.env[target], "total_params") else 1)
                         lim = max(1e-9 * n * max(1.0, all_scale), 1e2 * n * c * 2.2e-16)
